@@ -1759,3 +1759,42 @@ Proof.
     apply andb_true_iff in Hg. destruct Hg as [Hg Hv]. apply andb_true_iff in Hg. destruct Hg as [Hc Hk].
     apply loads_dumps; [apply report_dict_wf; assumption | apply report_dict_nov; assumption].
 Qed.
+
+(* ---- several processes (Reporter instances) appending to one std.out ------------------------- *)
+
+Lemma render_concat css : render (concat css) = concat (map render css).
+Proof. induction css as [|cs css IH]; [reflexivity|]. cbn [concat map]. rewrite render_app, IH. reflexivity. Qed.
+
+Lemma payloads_of_concat css : payloads_of (concat css) = concat (map payloads_of css).
+Proof. induction css as [|cs css IH]; [reflexivity|]. cbn [concat map]. rewrite payloads_of_app, IH. reflexivity. Qed.
+
+Lemma payloads_ok_concat css : forallb payloads_ok css = true -> payloads_ok (concat css) = true.
+Proof.
+  induction css as [|cs css IH]; intro H; [reflexivity|]. cbn [forallb concat] in *.
+  apply andb_true_iff in H. destruct H as [H1 H2]. rewrite payloads_ok_app, H1, (IH H2). reflexivity.
+Qed.
+
+(* the stream and the counters of one process: a fresh Reporter, counter starting at 0 *)
+Definition process_out (add_time : bool) (m1 m2 : list Z) (evs : list cevent) : list outcome * list chunk :=
+  let '(_, os, cs) := run_script m1 m2 reporter_init (map (to_event add_time) evs) in (os, cs).
+
+Theorem multi_process add_time m1 m2 (scripts : list (list cevent)) :
+  forallb (forallb cevent_ok) scripts = true ->
+  let outs := map (process_out add_time m1 m2) scripts in
+  let css := map snd outs in
+  noise_ok (concat css) = true ->
+  retrieve_model (readlines (concat (map render css))) = concat (map payloads_of css) /\
+  Forall (fun o => StronglySorted lt (emitted_iters (fst o))) outs.
+Proof.
+  intros Hok outs css Hn. split.
+  - rewrite <- render_concat, <- payloads_of_concat. apply framing_lines; [exact Hn|].
+    apply payloads_ok_concat. unfold css, outs. rewrite !forallb_forall in *.
+    intros cs Hcs. apply in_map_iff in Hcs. destruct Hcs as [o [<- Ho]].
+    apply in_map_iff in Ho. destruct Ho as [evs [<- Hevs]]. specialize (Hok evs Hevs).
+    pose proof (reporter_concrete add_time m1 m2 evs reporter_init Hok) as H. unfold process_out.
+    destruct (run_script m1 m2 reporter_init (map (to_event add_time) evs)) as [[k' os] cs']. cbn [snd]. tauto.
+  - apply Forall_forall. intros o Ho. unfold outs in Ho. apply in_map_iff in Ho. destruct Ho as [evs [<- Hevs]].
+    rewrite forallb_forall in Hok. specialize (Hok evs Hevs).
+    pose proof (reporter_concrete add_time m1 m2 evs reporter_init Hok) as H. unfold process_out.
+    destruct (run_script m1 m2 reporter_init (map (to_event add_time) evs)) as [[k' os] cs']. cbn [fst]. tauto.
+Qed.
